@@ -1075,9 +1075,54 @@ where
         }
     }
 
+    // Under the i flag the operands of a class set are case folded before the set operations apply
+    // (MaybeSimpleCaseFolding), and a complement is taken of the folded set. Sets closed under case
+    // stand for the folded sets here: closing commutes with union, intersection, subtraction and
+    // complement of closed sets. Strings are kept in folded form.
+    fn fold_class_set_operand(&self, operand: ClassSetOperand) -> ClassSetOperand {
+        if !self.flags.icase {
+            return operand;
+        }
+        match operand {
+            ClassSetOperand::ClassSetCharacter(c) => {
+                let mut cps = CodePointSet::new();
+                cps.add_one(c);
+                ClassSetOperand::CharacterClassEscape(unicode::add_icase_code_points(cps))
+            }
+            ClassSetOperand::CharacterClassEscape(cps) => {
+                ClassSetOperand::CharacterClassEscape(unicode::add_icase_code_points(cps))
+            }
+            ClassSetOperand::ClassStringDisjunction(s) => {
+                // A string of one code point is that code point.
+                let mut class = ClassSet::new();
+                class.may_contain_strings = s.iter().any(|string| string.len() != 1);
+                for string in s.iter() {
+                    if string.len() == 1 {
+                        class.codepoints.add_one(string[0]);
+                    } else {
+                        let folded = string.iter().map(|&c| unicode::fold_code_point(c, true));
+                        class.alternatives.0.push(folded.collect());
+                    }
+                }
+                class.codepoints = unicode::add_icase_code_points(class.codepoints);
+                ClassSetOperand::Class(class)
+            }
+            class @ ClassSetOperand::Class(_) => class,
+        }
+    }
+
     // CharacterClass :: ClassContents :: ClassSetExpression
     // A negated class whose contents may contain strings is rejected by the caller (MayContainStrings).
     fn consume_class_set_expression(&mut self) -> Result<ClassSet, Error> {
+        let mut result = self.consume_class_set_expression_unfolded()?;
+        if self.flags.icase {
+            // Ranges are added as written: close the finished class, so that it can be an operand.
+            result.codepoints = unicode::add_icase_code_points(result.codepoints);
+        }
+        Ok(result)
+    }
+
+    fn consume_class_set_expression_unfolded(&mut self) -> Result<ClassSet, Error> {
         let mut result = ClassSet::new();
 
         let first = match self.peek() {
@@ -1100,14 +1145,14 @@ where
         let op = match self.peek() {
             Some(0x5D /* ] */) => {
                 self.consume(']');
-                result.union_operand(first);
+                result.union_operand(self.fold_class_set_operand(first));
                 return Ok(result);
             }
             Some(0x26 /* & */) => {
                 self.consume('&');
                 if self.peek() == Some(0x26 /* & */) {
                     self.consume('&');
-                    result.union_operand(first.clone());
+                    result.union_operand(self.fold_class_set_operand(first.clone()));
                     ClassSetOperator::Intersection
                 } else {
                     result.codepoints.add_one(0x26 /* & */);
@@ -1118,7 +1163,7 @@ where
                 self.consume('-');
                 if self.peek() == Some(0x2D /* - */) {
                     self.consume('-');
-                    result.union_operand(first.clone());
+                    result.union_operand(self.fold_class_set_operand(first.clone()));
                     ClassSetOperator::Subtraction
                 } else {
                     match first {
@@ -1141,7 +1186,7 @@ where
                 }
             }
             Some(_) => {
-                result.union_operand(first.clone());
+                result.union_operand(self.fold_class_set_operand(first.clone()));
                 ClassSetOperator::Union
             }
             None => {
@@ -1179,7 +1224,7 @@ where
                             }
                         };
                     } else {
-                        result.union_operand(operand);
+                        result.union_operand(self.fold_class_set_operand(operand));
                     }
                 }
             }
@@ -1187,7 +1232,7 @@ where
             ClassSetOperator::Intersection => {
                 loop {
                     let operand = self.consume_class_set_operand()?;
-                    result.intersect_operand(operand);
+                    result.intersect_operand(self.fold_class_set_operand(operand));
                     match self.next() {
                         Some(0x5D /* ] */) => return Ok(result),
                         Some(0x26 /* & */) => {}
@@ -1203,7 +1248,7 @@ where
             ClassSetOperator::Subtraction => {
                 loop {
                     let operand = self.consume_class_set_operand()?;
-                    result.subtract_operand(operand);
+                    result.subtract_operand(self.fold_class_set_operand(operand));
                     match self.next() {
                         Some(0x5D /* ] */) => return Ok(result),
                         Some(0x2D /* - */) => {}
@@ -1333,9 +1378,11 @@ where
                         self.consume('P');
                         match self.try_consume_unicode_property_escape()? {
                             PropertyEscapeKind::CharacterClass(s) => {
-                                Ok(CharacterClassEscape(CodePointSet::from_sorted_disjoint_intervals(
-                                    s.to_vec(),
-                                ).inverted()))
+                                let mut cps = CodePointSet::from_sorted_disjoint_intervals(s.to_vec());
+                                if self.flags.icase {
+                                    cps = unicode::add_icase_code_points(cps);
+                                }
+                                Ok(CharacterClassEscape(cps.inverted()))
                             }
                             PropertyEscapeKind::StringSet(_) => error("Invalid character escape"),
                         }
@@ -1685,7 +1732,10 @@ where
                             // Per ES2024: apply SimpleCaseFolding to the property set first.
                             // For \P (inverted): complement before expansion so that case
                             // variants of the complement are included (existential quantifier).
-                            if negate {
+                            if negate && self.flags.unicode_sets {
+                                // With v the complement is taken of the folded set.
+                                cps = unicode::add_icase_code_points(cps).inverted();
+                            } else if negate {
                                 cps = unicode::add_icase_code_points(cps.inverted());
                             } else {
                                 cps = unicode::add_icase_code_points(cps);
